@@ -1,6 +1,7 @@
 /-
   Property C02 — the native jd diff text is a lossless carrier of a diff.
-  Statement file (proofs in JdProofs/NativeRoundTrip.lean, namespace `Jd.NativeRT`).
+  Statement file (proofs in JdProofs/NativeRoundTrip.lean, namespace `Jd.NativeRT`: the TEXT clauses;
+  JdProofs/Robust.lean, namespace `Jd.Robust`, group 2: the EFFECT clause).
 
   Model side: `renderM nc opts d` is `Diff.Render(opts...)`, `readDiffM nc text` is
   `ReadDiffString(text)` (JdModel/Native.lean); the reader is the 7-state automaton with the
@@ -28,14 +29,56 @@
     `NoEsc nc d`   (colour only) no rendered payload / path text contains ESC (control characters
                    are escaped by encoding/json).
 
-  What is NOT stated: "identical effect on every document" is the effect of `normDiff d` against
-  `d`; for strict list-mode hunks it follows from C03 (`Patch` = reference interpreter up to
-  `untag`), in general it is covered by the oracle (same effect on `a` and `b`) only.
+  THE EFFECT CLAUSE ("... and has the identical effect on every document")
+  `patchM c d` is `c.Patch(d)`, `patchAll sw c d` the same with either variant `sw` of the patch code
+  (`sw = true` is the library). Reading back gives `normDiff d` (`read_of_render`), so the clause is:
+  `normDiff d` has the effect of `d`. It is TRUE on the following domain and FALSE outside it.
+   (E1) TAG-FREE hunks — `read_back_same_effect`, `normalised_same_effect`: EXACT equality of the
+        outcome (result or error) on EVERY document `c` (any array types in `c`), any mix of strict
+        and merge hunks, every path kind. Per hunk:
+          `rawHunk h`    payload values and the key objects of `{"k":v}` path elements carry no Go
+                         array type (`rawDoc`): what every text reader produces, and what `Diff`
+                         produces on documents read from text except for a removed / added array,
+                         which it reports as a `jsonList` (→ E2);
+          `setKeysOK h`  a STRICT hunk has no path element `.setKeys []`: it is written `{}` and read
+                         back as the plain set element `.set` (`noEmptySetKeys d` says it of every
+                         hunk; the merge strategy does not look at it);
+          `voidOK h`     the void entries that the renderer drops are alone in their list
+                         (`voidAlone`: `[void]`, never `[void, v]`), and in a STRICT hunk either
+                         there is none, or the path is a `valuePath` (no set / multiset element, the
+                         last element not a list index): exactly where `remove` / `add` are used
+                         through `len > 1` and `singleValue` only, so `[void]` acts like `[]`.
+        When a hunk has no void entry to drop at all, reading back gives the very same hunk
+        (`normalised_is_identity`).
+   (E2) payloads WITH `jsonList` tags, LIST-mode documents — `read_back_same_effect_list`,
+        `normalised_same_effect_list`: on every `c` with `c.listDoc` the outcomes are equal up to the
+        array types of the result (`Outcome.mapO untag`). Per hunk `listHunkOK h`: `voidOK h`, and a
+        strict hunk is on a key / index path (`strictPath`) with list-document payloads
+        (`hunkListDoc`); nothing more is asked of a merge hunk. Strict hunks first, merge hunks after
+        (`mergeMono`, part of `wfDiff`). Strict key / index hunks with list-document payloads is the
+        shape of the diffs the library produces in list mode (`Jd.Props.C01.diffM_list_hunks_strict`);
+        that they also satisfy `voidOK` is not a theorem.
+   (E3) MERGE hunks only, any tags, any path — `normalised_same_effect_merge`: EVERY document, up
+        to the array types of the result; the only hypothesis is `voidOK` (= a void entry of `remove`
+        is alone in its list).
+  OUTSIDE the domain the effect CAN differ; every witness below is inside `wfDiff` (the domain of the
+  text clauses), so the hypotheses are not artefacts of the proof:
+    `noEmptySetKeys_needed` / `emptySetKeys_witness`  `{}` as keyed element: error before, `[null]` after;
+    `voidOK_needed`           a set hunk looks the void `remove` entry up in the set: error / success;
+    `void_append_witness`     index `-1` (append) refuses any `remove` entry, the void one included;
+    `void_pair_witness`, `void_pair_merge_witness`   `[void, v]`: `len > 1` counts the void entry;
+    `void_add_in_list_witness`  a strict list hunk stores a void `add` entry in the array;
+    `set_tag_witness`         a `jsonSet`-typed `remove` value (not `rawHunk`, not `hunkListDoc`):
+                              error before, success after.
+  NOT PROVED: strict hunks whose payload carries set / multiset TYPED array nodes, and tagged
+  payloads of strict hunks on set / multiset paths (false in general, `set_tag_witness`); these are
+  not producible from text and are covered by the oracle (same effect on `a` and `b`) only.
 -/
 import JdProofs.NativeRoundTrip
+import JdProofs.Robust
 
 namespace Jd.Props.C02
-open Jd Jd.Spec Jd.NativeRT
+open Jd Jd.Spec Jd.NativeRT Jd.Robust
 
 /-- reading the rendered text of a well-formed diff succeeds and gives the diff itself (normalised) -/
 theorem read_of_render (nc : NumCodec) (d : Diff) (text : String)
@@ -70,7 +113,7 @@ theorem color_is_plain_plus_ansi_hunk (nc : NumCodec) (h : Hunk) (hn : NoEsc nc 
     `wfHunk`, holds for every index a real document can have) -/
 theorem index_survives_float64 (i : Int) (h : i.natAbs < 2 ^ 53) :
     floatTrunc (intToFloatBits i) = i :=
-  floatTrunc_intToFloatBits i h
+  NativeRT.floatTrunc_intToFloatBits i h
 
 /-! Non-vacuity: a list hunk with boundary marker, context, two removed values and a void addition,
     followed by a merge hunk that deletes (`exDiff`), with a concrete codec: every hypothesis holds. -/
@@ -81,5 +124,181 @@ example : wfDiff exDiff = true ∧ exDiff.all listDocHunk = true ∧ CodecOK exC
 example (text : String) (h : renderM exCodec [] exDiff = some text) :
     readDiffM exCodec text = .ok (normDiff exDiff) :=
   read_of_render exCodec exDiff text (by decide) exDiff_codecOK h
+
+/-! ## The effect clause: the diff read back has the identical effect on every document -/
+
+/-- **(E1) on the text.** Tag-free hunks, no `{}`-keyed element in a strict hunk, void entries
+    harmless: the rendered diff is read back as a diff with EXACTLY the same outcome on EVERY
+    document -/
+theorem read_back_same_effect (nc : NumCodec) (d : Diff) (text : String)
+    (hw : wfDiff d = true) (hc : CodecOK nc d) (hr : renderM nc [] d = some text)
+    (hd : d.all (fun h => rawHunk h && setKeysOK h && voidOK h) = true) :
+    ∃ d', readDiffM nc text = .ok d' ∧ ∀ c : Json, patchM c d' = patchM c d :=
+  read_render_same_effect nc d text hw hc hr hd
+
+/-- **(E1) in memory**, stated with `noEmptySetKeys d` (no `.setKeys []` path element anywhere):
+    the normalised diff has exactly the effect of the diff, on every document, for either variant
+    of the patch code -/
+theorem normalised_same_effect (sw : Bool) (d : Diff)
+    (h1 : d.all rawHunk = true) (h2 : noEmptySetKeys d = true) (h3 : d.all voidOK = true) (c : Json) :
+    patchAll sw c (normDiff d) = patchAll sw c d :=
+  patchAll_normDiff_of_noEmptySetKeys sw d h1 h2 h3 c
+
+/-- with no void entry to drop (`Robust.noVoid l`: no entry of `l` is void), reading back gives the
+    very same hunk -/
+theorem normalised_is_identity (h : Hunk) (hraw : rawHunk h = true)
+    (hk : noEmptySetKeysP h.path = true) (h1 : Robust.noVoid h.remove = true)
+    (h2 : (h.merge || Robust.noVoid h.add) = true) : normHunk h = h :=
+  normHunk_eq_self h hraw hk h1 h2
+
+/-- **(E2) on the text.** Payloads may carry `jsonList` tags (what `Diff` reports for a removed /
+    added array); strict key / index hunks followed by merge hunks: the diff read back has the same
+    effect on every LIST-mode document, up to the array types of the result -/
+theorem read_back_same_effect_list (nc : NumCodec) (d : Diff) (text : String)
+    (hw : wfDiff d = true) (hc : CodecOK nc d) (hr : renderM nc [] d = some text)
+    (hd : d.all listHunkOK = true) :
+    ∃ d', readDiffM nc text = .ok d' ∧
+      ∀ c : Json, c.listDoc = true →
+        Outcome.mapO untag (patchM c d') = Outcome.mapO untag (patchM c d) :=
+  read_render_same_effect_list nc d text hw hc hr hd
+
+/-- **(E2) in memory** -/
+theorem normalised_same_effect_list (sw : Bool) (d : Diff) (hmono : mergeMono false d = true)
+    (hd : d.all listHunkOK = true) (c : Json) (hc : c.listDoc = true) :
+    Outcome.mapO untag (patchAll sw c (normDiff d)) = Outcome.mapO untag (patchAll sw c d) :=
+  patchAll_normDiff_listMixed_gen sw d hmono hd c c rfl hc hc
+
+/-- **(E3)** a diff of MERGE hunks, any tags, any path kinds (`{}`-keyed elements included): same
+    effect on EVERY document up to the array types of the result -/
+theorem normalised_same_effect_merge (sw : Bool) (c : Json) (d : Diff)
+    (hd : d.all (fun h => h.merge && voidOK h) = true) :
+    Outcome.mapO untag (patchAll sw c (normDiff d)) = Outcome.mapO untag (patchAll sw c d) :=
+  patchAll_normDiff_merge sw c d hd
+
+/-! ### Outside the domain the effect can differ (all witnesses are well-formed for the reader) -/
+
+/-- `noEmptySetKeys` cannot be dropped: a well-formed, tag-free diff with harmless void entries
+    whose normal form has a different outcome on some document -/
+theorem noEmptySetKeys_needed (sw : Bool) :
+    ∃ (d : Diff) (c : Json), wfDiff d = true ∧ d.all rawHunk = true ∧ d.all voidOK = true ∧
+      patchAll sw c (normDiff d) ≠ patchAll sw c d :=
+  Robust.noEmptySetKeys_needed sw
+
+/-- `voidOK` cannot be dropped either -/
+theorem voidOK_needed (sw : Bool) :
+    ∃ (d : Diff) (c : Json), wfDiff d = true ∧ d.all rawHunk = true ∧ noEmptySetKeys d = true ∧
+      patchAll sw c (normDiff d) ≠ patchAll sw c d :=
+  Robust.voidOK_needed sw
+
+/-- the witness behind `noEmptySetKeys_needed`, `ceKeys` = `@ [{},"x"]` / `+ null`: on `[]` the hunk
+    itself is an error (no member with the empty key object), the hunk read back (`{}` = set
+    element) succeeds -/
+theorem emptySetKeys_witness (sw : Bool) :
+    wfHunk ceKeys = true ∧ rawHunk ceKeys = true ∧ voidOK ceKeys = true ∧
+    noEmptySetKeysP ceKeys.path = false ∧
+    patchNode sw false (.arr .raw []) ceKeys.path ceKeys.before ceKeys.remove ceKeys.add ceKeys.after
+      = .err ∧
+    patchNode sw false (.arr .raw []) (normHunk ceKeys).path (normHunk ceKeys).before
+      (normHunk ceKeys).remove (normHunk ceKeys).add (normHunk ceKeys).after
+      = .ok (.arr .set [.null]) :=
+  ceKeys_facts sw
+
+/-- `ceAppend` = path `[-1]`, `remove = [void]`, `add = [null]`: the void entry is alone but the path
+    ends in a list index (not a `valuePath`); an append refuses any `remove` entry -/
+theorem void_append_witness (sw : Bool) :
+    wfHunk ceAppend = true ∧ rawHunk ceAppend = true ∧ voidAlone ceAppend.remove = true ∧
+    patchNode sw false (.arr .raw []) ceAppend.path ceAppend.before ceAppend.remove ceAppend.add
+      ceAppend.after = .err ∧
+    patchNode sw false (.arr .raw []) (normHunk ceAppend).path (normHunk ceAppend).before
+      (normHunk ceAppend).remove (normHunk ceAppend).add (normHunk ceAppend).after
+      = .ok (.arr .list [.null]) :=
+  ceAppend_facts sw
+
+/-- `ceLen` = root path, `remove = [void, {}]`: a value path, but the void entry is not alone;
+    `len(remove) > 1` counts it -/
+theorem void_pair_witness (sw : Bool) :
+    wfHunk ceLen = true ∧ rawHunk ceLen = true ∧ valuePath ceLen.path = true ∧
+    voidAlone ceLen.remove = false ∧
+    patchNode sw false (.obj []) ceLen.path ceLen.before ceLen.remove ceLen.add ceLen.after = .err ∧
+    patchNode sw false (.obj []) (normHunk ceLen).path (normHunk ceLen).before
+      (normHunk ceLen).remove (normHunk ceLen).add (normHunk ceLen).after = .ok .void :=
+  ceLen_facts sw
+
+/-- the same in the MERGE strategy: `ceLenMerge` = merge hunk at the root, `remove = [void, null]` -/
+theorem void_pair_merge_witness (sw : Bool) :
+    wfHunk ceLenMerge = true ∧ rawHunk ceLenMerge = true ∧ voidOK ceLenMerge = false ∧
+    patchNode sw true (.obj []) ceLenMerge.path ceLenMerge.before ceLenMerge.remove ceLenMerge.add
+      ceLenMerge.after = .err ∧
+    patchNode sw true (.obj []) (normHunk ceLenMerge).path (normHunk ceLenMerge).before
+      (normHunk ceLenMerge).remove (normHunk ceLenMerge).add (normHunk ceLenMerge).after
+      = .ok .null :=
+  ceLenMerge_facts sw
+
+/-- `ceAddVoid` = path `[0]`, `add = [void, null]`: the strict list patch stores the void entry in
+    the array, the hunk read back does not -/
+theorem void_add_in_list_witness (sw : Bool) :
+    wfHunk ceAddVoid = true ∧ rawHunk ceAddVoid = true ∧
+    patchNode sw false (.arr .raw []) ceAddVoid.path ceAddVoid.before ceAddVoid.remove ceAddVoid.add
+      ceAddVoid.after = .ok (.arr .list [.void, .null]) ∧
+    patchNode sw false (.arr .raw []) (normHunk ceAddVoid).path (normHunk ceAddVoid).before
+      (normHunk ceAddVoid).remove (normHunk ceAddVoid).add (normHunk ceAddVoid).after
+      = .ok (.arr .list [.null]) :=
+  ceAddVoid_facts sw
+
+/-- `ceSetVoid` = path `[{}]` (set element), `remove = [void]`, `add = [null]` (the witness behind
+    `voidOK_needed`): a set hunk looks the void entry up in the set -/
+theorem void_in_set_hunk_witness (sw : Bool) :
+    wfHunk ceSetVoid = true ∧ rawHunk ceSetVoid = true ∧ voidAlone ceSetVoid.remove = true ∧
+    patchNode sw false (.arr .raw []) ceSetVoid.path ceSetVoid.before ceSetVoid.remove ceSetVoid.add
+      ceSetVoid.after = .err ∧
+    patchNode sw false (.arr .raw []) (normHunk ceSetVoid).path (normHunk ceSetVoid).before
+      (normHunk ceSetVoid).remove (normHunk ceSetVoid).add (normHunk ceSetVoid).after
+      = .ok (.arr .set [.null]) :=
+  ceSetVoid_facts sw
+
+/-- `ceTag` = root path, `remove = [a jsonSet-typed empty array]`: the Go types of payload values
+    matter to the strict strategy outside list mode — a `jsonSet` never `Equals` the `jsonArray` it
+    is compared with under no options; the hunk read back (plain array) applies -/
+theorem set_tag_witness (sw : Bool) :
+    wfHunk ceTag = true ∧ voidOK ceTag = true ∧ hunkListDoc ceTag = false ∧
+    patchNode sw false (.arr .raw []) ceTag.path ceTag.before ceTag.remove ceTag.add ceTag.after
+      = .err ∧
+    patchNode sw false (.arr .raw []) (normHunk ceTag).path (normHunk ceTag).before
+      (normHunk ceTag).remove (normHunk ceTag).add (normHunk ceTag).after = .ok .void :=
+  ceTag_facts sw
+
+/-! Non-vacuity of the effect clause.
+    On the text: the merge hunk of `exDiff` (`exDiff.drop 1`, `@ ["b"]` / `+` void = delete the member)
+    with the concrete codec satisfies every hypothesis of `read_back_same_effect` and of
+    `read_back_same_effect_list`. (The FIRST hunk of `exDiff` is outside the effect domain on purpose:
+    its `add` is `[void, true]` on a list index, the shape of `void_add_in_list_witness`.)
+    In memory: `exEffect`, a strict list hunk with context, a set hunk with two removed values, a
+    keyed-member hunk, a root replacement with a void `remove` entry and a merge hunk, satisfies the
+    hypotheses of `normalised_same_effect`. -/
+
+example : wfDiff (exDiff.drop 1) = true ∧ CodecOK exCodec (exDiff.drop 1) ∧
+    (exDiff.drop 1).all (fun h => rawHunk h && setKeysOK h && voidOK h) = true ∧
+    (exDiff.drop 1).all listHunkOK = true :=
+  ⟨by decide, fun h hh => exDiff_codecOK h (List.mem_of_mem_drop hh), by decide, by decide⟩
+
+example (text : String) (hr : renderM exCodec [] (exDiff.drop 1) = some text) :
+    ∃ d', readDiffM exCodec text = .ok d' ∧ ∀ c : Json, patchM c d' = patchM c (exDiff.drop 1) :=
+  read_back_same_effect exCodec _ text (by decide)
+    (fun h hh => exDiff_codecOK h (List.mem_of_mem_drop hh)) hr (by decide)
+
+/-- a diff with every hunk shape of the domain (E1) -/
+def exEffect : Diff :=
+  [ { path := [.key "a", .idx 1], before := [.void], remove := [.str "x"], add := [.bool true, .null],
+      after := [.arr .raw [.null]] },
+    { path := [.key "s", .set], remove := [.str "p", .str "q"], add := [.obj [("k", .null)]] },
+    { path := [.setKeys [("id", .str "u")], .key "v"], remove := [.null], add := [.bool false] },
+    { path := [.key "r"], remove := [.void], add := [.str "new"] },
+    { merge := true, path := [.key "b"], add := [.void] } ]
+
+example : wfDiff exEffect = true ∧ exEffect.all rawHunk = true ∧ noEmptySetKeys exEffect = true ∧
+    exEffect.all voidOK = true := ⟨by decide, by decide, by decide, by decide⟩
+
+example (sw : Bool) (c : Json) : patchAll sw c (normDiff exEffect) = patchAll sw c exEffect :=
+  normalised_same_effect sw exEffect (by decide) (by decide) (by decide) c
 
 end Jd.Props.C02
